@@ -159,7 +159,14 @@ func (goh *GoatOverHttp) ServeHTTP(w http.ResponseWriter, r *http.Request) {
 		go goh.onConnect(source, conn)
 	}
 
-	conn.readCh <- &rpc
+	select {
+	case conn.readCh <- &rpc:
+	case <-conn.done:
+		// the connection was closed (idle timeout, write failure) before anybody
+		// took the Rpc
+		http.Error(w, "connection closed", http.StatusServiceUnavailable)
+	case <-r.Context().Done():
+	}
 }
 
 // connectionCleaner ticks every |connectionCleanupInterval|, closing any
@@ -197,6 +204,7 @@ func (goh *GoatOverHttp) retrieve(id string) (*httpReadWriter, bool) {
 		conn = &httpReadWriter{
 			writeAddr: id,
 			readCh:    make(chan *Rpc),
+			done:      make(chan struct{}),
 			cancel:    func() { goh.unregister(id) },
 			clock:     goh.clock,
 		}
@@ -216,7 +224,8 @@ func (goh *GoatOverHttp) unregister(id string) {
 
 func (goh *GoatOverHttp) unregisterLocked(id string) {
 	if conn, ok := goh.conns.value[id]; ok {
-		close(conn.readCh)
+		// readCh itself is never closed: ServeHTTP may be sending on it.
+		close(conn.done)
 	}
 
 	delete(goh.conns.value, id)
@@ -225,6 +234,7 @@ func (goh *GoatOverHttp) unregisterLocked(id string) {
 type httpReadWriter struct {
 	writeAddr string
 	readCh    chan *Rpc
+	done      chan struct{} // closed when the connection is unregistered
 	cancel    func()
 
 	clock        clockwork.Clock
@@ -232,13 +242,16 @@ type httpReadWriter struct {
 }
 
 func (hrw *httpReadWriter) Read(ctx context.Context) (*Rpc, error) {
-	rpc, ok := <-hrw.readCh
-	if !ok {
+	select {
+	case rpc := <-hrw.readCh:
+		hrw.bumpActivity()
+		return rpc, nil
+	case <-hrw.done:
 		log.Error().Msgf("HttpRpcReadWriter: read err: closed")
 		return nil, errors.New("readCh closed")
+	case <-ctx.Done():
+		return nil, ctx.Err()
 	}
-	hrw.bumpActivity()
-	return rpc, nil
 }
 
 func (hrw *httpReadWriter) Write(ctx context.Context, rpc *Rpc) error {
